@@ -407,6 +407,10 @@ def run(ck):
                 allowed = (allowed_via_callers(P, f, ("_write_to_pipe", "_begin", "multicast_level"))[0] and "private" not in what and "closes" not in what and "reconfigures" not in what)
                 agg.add("R07.3", f, "only _write_to_pipe/_begin/multicast_level leave RX mode, and nobody closes pipes or touches the radio's private state", allowed,
                         "%s %s" % (f.qualname, what), node_)
+    # "after a node_address assignment the radio listens on the node's own six pipes": the setter must run _begin() for every valid value,
+    # also the current one (after power-down, inside a fresh `with`, or after new prefix/suffix bytes) - R04.8
+    from . import c04
+    c04.reconfigure(ck, agg)
     agg.flush()
     ck.floor("R07", "_write/_net_update/_begin scenarios", nscen, 40)
     ck.floor("R07.1", "public entry points reaching the radio", nentry, 20)
